@@ -902,6 +902,81 @@ theorem winRel_takeReq (c : Conn) (sid : Nat) : WinRel c (takeReq c sid) := by
   obtain ⟨o, hs⟩ := takeReq_shape c sid
   rw [hs]; exact winRel_same rfl rfl rfl rfl rfl (.inl rfl)
 
+/-! ### the expansion of queued HEADERS frames into the frames of their blocks carries no DATA -/
+
+theorem contFrames_noDat (sid : Nat) (fl : List (Bytes × Bytes)) (ls : List Nat) : NoDat (contFrames sid fl ls) := by
+  induction ls with
+  | nil => exact fun f hf => nomem hf
+  | cons l ls ih =>
+    intro f hf
+    simp only [contFrames, List.mem_cons] at hf
+    rcases hf with rfl | hf
+    · rfl
+    · exact ih f hf
+
+theorem headerFrames_noDat (sid : Nat) (es : Bool) (fl : List (Bytes × Bytes)) (ls : List Nat) :
+    NoDat (headerFrames sid es fl ls) := by
+  cases ls with
+  | nil => exact fun f hf => nomem hf
+  | cons l ls =>
+    intro f hf
+    simp only [headerFrames, List.mem_cons] at hf
+    rcases hf with rfl | hf
+    · split <;> rfl
+    · exact contFrames_noDat sid fl ls f hf
+
+/-- the frames on the wire carry the DATA of the frames queued, stream by stream, and no other -/
+theorem wireFrames_data (fs : List OutFrame) : ∀ c : Conn,
+    (∀ sid, dataOn sid (wireFrames c fs) = dataOn sid fs) ∧ dataAll (wireFrames c fs) = dataAll fs ∧
+    (∀ f ∈ wireFrames c fs, dataLen f = 0 ∨ f ∈ fs) := by
+  induction fs with
+  | nil => intro c; exact ⟨fun _ => rfl, rfl, fun f hf => nomem hf⟩
+  | cons x xs ih =>
+    intro c
+    have keep : ∀ c' : Conn, wireFrames c (x :: xs) = x :: wireFrames c' xs →
+        (∀ sid, dataOn sid (wireFrames c (x :: xs)) = dataOn sid (x :: xs)) ∧
+        dataAll (wireFrames c (x :: xs)) = dataAll (x :: xs) ∧
+        (∀ f ∈ wireFrames c (x :: xs), dataLen f = 0 ∨ f ∈ x :: xs) := by
+      intro c' e
+      obtain ⟨i1, i2, i3⟩ := ih c'
+      rw [e]
+      refine ⟨?_, by simp only [dataAll, i2], ?_⟩
+      · intro sid; cases x <;> simp only [dataOn, i1 sid]
+      · intro f hf
+        simp only [List.mem_cons] at hf
+        rcases hf with rfl | hf
+        · exact .inr (List.mem_cons_self ..)
+        · rcases i3 f hf with h | h
+          · exact .inl h
+          · exact .inr (List.mem_cons_of_mem _ h)
+    cases x with
+    | headers sid es fl =>
+      obtain ⟨i1, i2, i3⟩ := ih (encodeHeaders c fl).1
+      have hn := headerFrames_noDat sid es fl (blockLens (frameStep c) (encodeHeaders c fl).2)
+      simp only [wireFrames]
+      refine ⟨?_, ?_, ?_⟩
+      · intro s; rw [dataOn_append, noDat_on hn, i1 s]; simp [dataOn]
+      · rw [dataAll_append, noDat_all hn, i2]; simp [dataAll, dataLen]
+      · intro f hf
+        rcases List.mem_append.mp hf with hf | hf
+        · exact .inl (hn f hf)
+        · rcases i3 f hf with h | h
+          · exact .inl h
+          · exact .inr (List.mem_cons_of_mem _ h)
+    | hfrag sid es len => exact keep c rfl
+    | cont sid eh len fl => exact keep c rfl
+    | data sid len es => exact keep c rfl
+    | rst sid code => exact keep c rfl
+    | settingsAck => exact keep c rfl
+    | ping a d => exact keep c rfl
+    | windowUpdate sid inc => exact keep c rfl
+
+theorem Led.wrote_wire (g : Led) (c : Conn) (fs : List OutFrame) : g.wrote (wireFrames c fs) = g.wrote fs := by
+  obtain ⟨i1, i2, _⟩ := wireFrames_data fs c
+  simp only [Led.wrote, i2]
+  congr 1
+  funext s; rw [i1 s]
+
 /-- the frames reach the transport (the ledgers move) or the connection ends on the write error (they do not) -/
 theorem afterWrites_ok {g : Led} {m : Nat} {c : Conn} {fs : List OutFrame} (h : WrOK g m (c, fs)) (hm : c.maxFrameSize = m) :
     FL (g.wrote (outFrames (afterWrites c fs).2)) (afterWrites c fs).1 ∧ Emit g (outFrames (afterWrites c fs).2) ∧
@@ -909,7 +984,18 @@ theorem afterWrites_ok {g : Led} {m : Nat} {c : Conn} {fs : List OutFrame} (h : 
   obtain ⟨h1, h2, h3⟩ := h
   rcases afterWrites_cases c fs with ⟨e, s, b, hh⟩ | ⟨e, s, hh⟩
   · rw [hh]
-    exact ⟨h1.winRel (winRel_same rfl rfl rfl rfl rfl (.inl rfl)), h2, fun f hf => by rw [show _ = m from hm]; exact h3 f hf⟩
+    obtain ⟨i1, _, i3⟩ := wireFrames_data fs c
+    simp only [outFrames]
+    rw [Led.wrote_wire]
+    refine ⟨h1.winRel (winRel_same rfl rfl rfl rfl rfl (.inl rfl)), ?_, ?_⟩
+    · intro sid hs
+      rw [i1 sid] at hs ⊢
+      exact h2 sid hs
+    · intro f hf
+      rw [show _ = m from hm]
+      rcases i3 f hf with h0 | hm'
+      · rw [h0]; exact Nat.zero_le _
+      · exact h3 f hm'
   · rw [hh]
     simp only [outFrames]
     rw [Led.wrote_nil]
